@@ -40,12 +40,24 @@ def fields (s : String) : List (String × String) :=
 def optInt (s : String) : Option (Option Int) :=
   if s == "d" then some none else (parseInt? s).map some
 
-/-- the premise of the clause, decided on the inputs alone: match/mismatch scoring with
-`mismatch < match`, `0 < match`, `gapopen ≤ gapextend < 0`, the reference occurs exactly once -/
+/-- the substitution score the configured aligner gives to a pair of residues (index map + matrix, or byte
+equality after `SetScore`) -/
+def subOf (a : Aligner) (x y : Byte) : Int :=
+  let idx (c : Byte) : Nat := match a.chartopos with
+    | none => 0
+    | some tbl => (lookup (toUpper c) tbl).getD 0
+  matchScore a (x, idx x) (y, idx y)
+
+/-- diagonal dominance (`Proofs.PhaseAlignSpec.Dom`), decided on the two sequences -/
+def domB (a : Aligner) (s t : Seq) : Bool :=
+  s.all fun x => decide (0 < subOf a x x) &&
+    t.all fun y => decide (subOf a x y ≤ subOf a x x) && (subOf a x y != subOf a x x || y == x)
+
+/-- the premise of the (partial) clause, decided on the inputs alone: the hypotheses of
+`Props.C16.atg_verbatim_aligned_at_occurrence_partial` -/
 def premise (a : Aligner) (orf seq : Seq) : Bool :=
-  a.submatrix.isNone && decide (a.mismatch < a.matchS) && decide (0 < a.matchS) &&
-  decide (a.gapopen ≤ a.gapextend) && decide (a.gapextend < 0) && !orf.isEmpty &&
-  (occurrences orf seq).length == 1
+  domB a orf seq && decide (a.gapopen ≤ a.gapextend) && decide (a.gapextend < 0) && !orf.isEmpty &&
+  !orf.contains GAP && (occurrences orf seq).length == 1
 
 def handle : Handler := fun op args impl =>
   match op, args with
@@ -73,7 +85,7 @@ def handle : Handler := fun op args impl =>
       else if (lookup "unmod" f).getD "1" != "1" then "fail:input-modified"
       else if premise a s1 s2 then
         let off := (occurrences s1 s2).getD 0 0
-        let want := s!"sc={(s1.length : Int) * a.matchS} st=0,{off} en={s1.length - 1},{off + s1.length - 1} " ++
+        let want := s!"sc={(s1.map fun x => subOf a x x).foldl (· + ·) 0} st=0,{off} en={s1.length - 1},{off + s1.length - 1} " ++
           s!"len={s1.length} nm={s1.length} mis=0 gap=0 r1={encSeq s1} r2={encSeq s1}"
         verdictOf ((impl.splitOn want).length == 2) "verbatim-orf-not-aligned-at-its-occurrence"
       else "na"
@@ -98,9 +110,10 @@ def handle : Handler := fun op args impl =>
       let c : NTCfg := { den := den, gapopen := gopen.getD (-10 * den), gapextend := gext.getD (-(den / 2)),
                          scores := setScore, reverse := decBool rev, cutend := decBool ce,
                          fixed := v % 2 == 1, alphaFixed := v / 2 % 2 == 1 }
-      -- Phase() refuses references shorter than a codon only in translate mode; nothing is refused here
+      -- Phase() translates the (nucleotide) references before anything else, also in nucleotide mode: a
+      -- reference shorter than a codon makes it return an error
       let out := phaseNT c tbl (refs.map (·.2)) seq
-      let model := renderNT v out
+      let model := if refs.any (fun r => r.2.length < 3) then s!"err v={v}" else renderNT v out
       let verdict :=
         if impl.startsWith "panic" || impl.startsWith "exit:" then "fail:worker-panic" else
         match refs with
